@@ -152,7 +152,7 @@ def run(rep):
             continue
         for n in walk(f.body):
             if n.get("k") == "Adt" and n["adt"] in ("solver::Cache", "solver::Passthrough"):
-                rep.check(name in SOLVER_FNS, "PROV-PRIVATE", "PROV-PRIVATE/ctor/%s/%s#%d" % (name, n["adt"], sum(1 for i in rep.instances if i.key.startswith("PROV-PRIVATE/ctor/%s/%s" % (name, n["adt"])))), n["sp"], "constructed only inside the solver's own functions", name)
+                rep.check(name in SOLVER_FNS or name.startswith("solver::"), "PROV-PRIVATE", "PROV-PRIVATE/ctor/%s/%s#%d" % (name, n["adt"], sum(1 for i in rep.instances if i.key.startswith("PROV-PRIVATE/ctor/%s/%s" % (name, n["adt"])))), n["sp"], "constructed only inside the solver's own functions", name)
     rep.floor("PROV-PRIVATE", 6)
 
     # ---------------------------------------------------------------- PROV-SYNTH (optimiser side)
